@@ -1,6 +1,7 @@
 package harness
 
 import (
+	"crypto/sha256"
 	"context"
 	"errors"
 	"fmt"
@@ -35,6 +36,7 @@ type NetMsg struct {
 	Fate      string   `json:"fate"` // delivered, dropped, cut, down, cancelled, dup
 	Err       string   `json:"err,omitempty"`
 	Delivered int64    `json:"delivered_at"`
+	Dup       bool     `json:"dup,omitempty"` // a duplicate made by the network, not a second send
 }
 
 // Mutator may replace a message in flight; it returns nil to leave it alone.
@@ -132,9 +134,14 @@ func chance(t *simrt.Task, p float64) bool {
 // context, panic containment. req has already been copied through the wire encoding.
 func (n *SimNet) deliver(ctx context.Context, from int, to *Node, kind string, item Hash, gossipers []string, faultable bool,
 	handler func(ctx context.Context) error) error {
+	return n.deliverX(ctx, from, to, kind, item, gossipers, faultable, false, handler)
+}
+
+func (n *SimNet) deliverX(ctx context.Context, from int, to *Node, kind string, item Hash, gossipers []string, faultable, isDup bool,
+	handler func(ctx context.Context) error) error {
 	w := n.w
 	t := simrt.Me()
-	m := &NetMsg{At: simrt.Now(), From: from, To: to.Idx, Kind: kind, Item: item, ItemHex: hx(item), Gossipers: gossipers}
+	m := &NetMsg{At: simrt.Now(), From: from, To: to.Idx, Kind: kind, Item: item, ItemHex: hx(item), Gossipers: gossipers, Dup: isDup}
 	n.Log = append(n.Log, m)
 	if ctx != nil && ctx.Err() != nil {
 		m.Fate = "cancelled"
@@ -183,15 +190,16 @@ func (n *SimNet) deliver(ctx context.Context, from int, to *Node, kind string, i
 func (n *SimNet) runHandler(to *Node, kind string, handler func(ctx context.Context) error) (err error) {
 	w := n.w
 	t := simrt.Me()
-	old := ""
+	old, oldName := "", ""
 	if t != nil {
-		old = t.Label
+		old, oldName = t.Label, t.Name
 		t.Label = to.URL
+		t.Name = fmt.Sprintf("n%d:%s", to.Idx, kind)
 	}
 	hctx, cancel := context.WithCancel(to.ctx)
 	defer func() {
 		if t != nil {
-			t.Label = old
+			t.Label, t.Name = old, oldName
 		}
 		if w.Cfg.CtxCancelOnReturn {
 			cancel()
@@ -204,6 +212,22 @@ func (n *SimNet) runHandler(to *Node, kind string, handler func(ctx context.Cont
 		}
 	}()
 	return handler(hctx)
+}
+
+// gossiperAddrs returns the addresses of the entries whose signature is valid for (address, item):
+// recomputed independently of the code under test.
+func gossiperAddrsFor(item Hash, gs []*pb.Gossiper) []string {
+	out := make([]string, 0, len(gs))
+	for _, g := range gs {
+		if g == nil {
+			continue
+		}
+		d := sha256.Sum256(append([]byte(g.Address), item[:]...))
+		if len(g.Digest) == 32 && toHash(g.Digest) == d && sigOK(g.Address, d, g.Signature) {
+			out = append(out, g.Address)
+		}
+	}
+	return out
 }
 
 func gossiperAddrs(gs []*pb.Gossiper) []string {
@@ -295,13 +319,13 @@ func (s *stub) GossipVrx(ctx context.Context, in *pb.VrxMsgGossip, _ ...grpc.Cal
 		roundTrip(req, dup)
 		simrt.GoNamed("net-dup", func() {
 			simrt.SleepFor(s.net.latency(simrt.Me()))
-			s.net.deliver(context.Background(), from, s.to, "GossipVrx", item, gossiperAddrs(dup.Gossipers), false, func(c context.Context) error {
+			s.net.deliverX(context.Background(), from, s.to, "GossipVrx", item, gossiperAddrsFor(item, dup.Gossipers), false, true, func(c context.Context) error {
 				_, e := s.to.Goss.Server().GossipVrx(c, dup)
 				return e
 			})
 		})
 	}
-	err := s.net.deliver(ctx, from, s.to, "GossipVrx", item, gossiperAddrs(req.Gossipers), true, h)
+	err := s.net.deliver(ctx, from, s.to, "GossipVrx", item, gossiperAddrsFor(item, req.Gossipers), true, h)
 	if err != nil {
 		return nil, err
 	}
@@ -330,13 +354,13 @@ func (s *stub) GossipTrx(ctx context.Context, in *pb.TrxMsgGossip, _ ...grpc.Cal
 		roundTrip(req, dup)
 		simrt.GoNamed("net-dup", func() {
 			simrt.SleepFor(s.net.latency(simrt.Me()))
-			s.net.deliver(context.Background(), from, s.to, "GossipTrx", item, gossiperAddrs(dup.Gossipers), false, func(c context.Context) error {
+			s.net.deliverX(context.Background(), from, s.to, "GossipTrx", item, gossiperAddrsFor(item, dup.Gossipers), false, true, func(c context.Context) error {
 				_, e := s.to.Goss.Server().GossipTrx(c, dup)
 				return e
 			})
 		})
 	}
-	err := s.net.deliver(ctx, from, s.to, "GossipTrx", item, gossiperAddrs(req.Gossipers), true, func(c context.Context) error {
+	err := s.net.deliver(ctx, from, s.to, "GossipTrx", item, gossiperAddrsFor(item, req.Gossipers), true, func(c context.Context) error {
 		_, e := s.to.Goss.Server().GossipTrx(c, req)
 		return e
 	})
